@@ -148,11 +148,21 @@ def judge(ctx, status: str) -> list[dict]:
                 if rec and c.parent in nodes:
                     seen_era_ops.add(nodes[c.parent].label)
                 if p is not None and not rec and p.label not in seen_era_ops:
-                    key = ("R4",)
+                    # is there a successful DELETE of a *sibling* collection's resource (names equal up to trailing 's')?
+                    def plural_eq(a: list, b: list) -> bool:
+                        return len(a) <= len(b) and all(x == y or x.rstrip("s") == y.rstrip("s") for x, y in zip(a, b))
+
+                    sibling = any(
+                        d.order < c.order and d.rec is not None and d.rec.request.method == "DELETE" and d.status is not None
+                        and 200 <= d.status < 300 and plural_eq(d.segments, c.segments) and not SC.is_segment_prefix(d.segments, c.segments)
+                        for d in nodes.values()
+                    )
+                    reason = "sibling_collection_delete_counted" if sibling else "none"
+                    key = ("R4", reason)
                     if key not in reported:
                         reported.add(key)
                         v("R4", f"{c.rec.request.method} {c.rec.request.path} answered {c.status} right after POST {p.rec.request.path} ({p.status}) "
-                                f"with all parameters from the link and no successful DELETE, but ensure_resource_availability was not reported",
-                          what="era_missed")
+                                f"with all parameters from the link and no successful DELETE, but ensure_resource_availability was not reported "
+                                f"({reason})", what="era_missed", reason=reason)
     ctx.extra["c18_stats"] = stats
     return vs
